@@ -330,6 +330,72 @@ class TreeChecker:
             return getattr(H, prod[2:])
         return getattr(T, prod)
 
+    def _callers(self):
+        if getattr(self, "_own", None) is None:
+            own = set()
+            try:
+                for t in self.T.getlinopparams():
+                    own.add(t.untyped_storage().data_ptr())
+            except Exception:
+                pass
+            for t in (self.D, self.A):
+                own.add(t.untyped_storage().data_ptr())
+            self._own = own
+        return self._own
+
+    def _is_callers(self, t):
+        try:
+            return t.untyped_storage().data_ptr() in self._callers()
+        except Exception:
+            return True
+
+    def subst_consistency(self, p, q):
+        """.H has been evaluated; the operator's tensors are then substituted (uselinopparams, as the backward pass
+        of solve does) and the adjoint is asked for again: inside the block H.fullmatrix == fullmatrix^H and
+        H.mv == rmv == fullmatrix^H y (mutual consistency at the substituted parameters)"""
+        T = self.T
+        o = call(T.getlinopparams)
+        self.n += 1
+        if o.exc is not None:
+            return
+        lp = list(o.value)
+        if not lp or self.getH() is False:
+            return
+        new = [t.detach() * 1.5 + 0.25 for t in lp]
+        y = randn((p,), self.dtype, self.g)
+
+        def inside():
+            with T.uselinopparams(*new):
+                F = T.fullmatrix()
+                Hn = T.H
+                return F.detach().clone(), Hn.fullmatrix().detach().clone(), T.rmv(y).detach().clone(), \
+                    Hn.mv(y).detach().clone()
+        oi = call(inside)
+        self.n += 1
+        if oi.exc is not None:
+            self.bump("subst-raises:" + type(oi.exc).__name__)
+            return
+        F, HF, r1, r2 = oi.value
+        if tuple(HF.shape) != tuple(_ct(F).shape) or r1.shape != r2.shape:
+            return
+        scale = max(float(F.abs().max()) if F.numel() else 0.0, 1e-30)
+        tol = 1024 * self.eps * scale * max(p, q)
+        e1 = float((HF - _ct(F)).abs().max()) if F.numel() else 0.0
+        ref = _mvref(_ct(F), y)
+        e2 = float((r2 - ref).abs().max()) if ref.numel() else 0.0
+        e3 = float((r1 - ref).abs().max()) if ref.numel() else 0.0
+        ymax = max(1.0, float(y.abs().max()))
+        if not e1 <= tol:
+            self.report("adjoint-stale-after-substitution:H.fullmatrix", {"err": e1, "tol": tol}, product="H.fullmatrix",
+                        change="uselinopparams")
+        if not e2 <= tol * ymax:
+            self.report("adjoint-stale-after-substitution:H.mv", {"err": e2, "tol": tol * ymax}, product="H.mv",
+                        change="uselinopparams")
+        if not e3 <= tol * ymax:
+            self.report("rmv-inconsistent-after-substitution", {"err": e3, "tol": tol * ymax}, product="rmv",
+                        change="uselinopparams")
+        self.bump("subst-ok")
+
     def compare(self, prod, got, ref, bound, xb):
         if not isinstance(got, torch.Tensor):
             self.report("not-a-tensor:%s" % prod, {"type": str(type(got))}, product=prod, xb=list(xb))
@@ -377,6 +443,20 @@ class TreeChecker:
                 self.compare(prod, o.value, M, M.abs().max().item() if M.numel() else 0.0, ())
                 if isinstance(o.value, torch.Tensor) and prod == "fullmatrix":
                     self.table["fp"] = self.table.get("fp", 0.0) + float(o.value.detach().abs().sum())
+                # the returned matrix is the caller's: it is overwritten in place (unless it IS one of the caller's
+                # own tensors handed to the operator) and asked for again - nothing may be shared between results
+                if isinstance(o.value, torch.Tensor) and o.value.numel() and not self._is_callers(o.value):
+                    with torch.no_grad():
+                        o.value.detach().mul_(0).add_(7.5)
+                    o2 = call(f)
+                    self.n += 1
+                    if o2.exc is None:
+                        self.compare(prod + "@after-result-overwritten", o2.value, M,
+                                     M.abs().max().item() if M.numel() else 0.0, ())
+                        if isinstance(o2.value, torch.Tensor) and o2.value.numel() and not self._is_callers(o2.value):
+                            with torch.no_grad():
+                                o2.value.detach().mul_(0).add_(-3.25)
+        self.subst_consistency(p, q)
         # unit vectors
         for prod in ("mv", "rmv"):
             M, B, n, _ = spec[prod]
